@@ -24,7 +24,9 @@ ASSUMPTIONS = ['vf/xlref criterion semantics = the clauses of the statement', 'b
 HOST_SETTINGS = {'shards': lambda shards: [0, len(shards) - 1], 'env': {'VERIF_HOST_DECIMAL': '3'}}
 FLOORS = {'quick': {'evaluations': 8000, 'nontrivial': 3000}, 'thorough': {'evaluations': 250000, 'nontrivial': 100000}}
 
-TEXTS = ['apple', 'Apple', 'APPLE', 'pear', 'a.c', 'abc', 'a*b', 'a?c', '[x]', 'x+y', 'pine apple', 'ap']
+TEXTS = ['apple', 'Apple', 'APPLE', 'pear', 'a.c', 'abc', 'a*b', 'a?c', '[x]', 'x+y', 'pine apple', 'ap',
+         # tildes in cells: literal tildes are written ~~ in a pattern, and a wildcard after ~~ is a live wildcard again
+         '~', '~a', 'v~x', '~*', 'a~b', '~~', 'v~', '~apple']
 
 
 def crit_cell(rng, col):
@@ -95,7 +97,8 @@ def criterion(rng, col):
         return 'F2'
     if form < 0.56:
         return '"<>"&F2'
-    pats = ['a*', '*e', '?pple', 'a?c', '*p*', 'A*', '*', '?*', 'a~*b', 'a~?c', '*.*', '[x]', 'x+y', 'a.c', '??', 'p*r', 'ap*e', '*apple', 'pine*']
+    pats = ['a*', '*e', '?pple', 'a?c', '*p*', 'A*', '*', '?*', 'a~*b', 'a~?c', '*.*', '[x]', 'x+y', 'a.c', '??', 'p*r', 'ap*e', '*apple', 'pine*',
+            '~~*', 'v~~?', '~~~*', '~~', 'a~~b', '*~~*', '~~?*', '~~~~*', 'v~~*', '~~?', '~*', '~~a*', '<>~~*', '=~~?']
     return f'"{rng.choice(pats)}"'
 
 
